@@ -165,6 +165,41 @@ theorem Inv.emit {k st} (h : Inv k st) (ev : Ev) : Inv k (emit k st ev) := by
     | error e => simp [Ev.isTerminal] at ho
     | complete => simp [Ev.isTerminal] at ho
 
+/-! ### `emitK`: the call-level `next / error / complete` (for `.async`: `AsyncSubject`'s own methods) -/
+
+theorem emitK_of_not_async (k : Kind) (hk : k.isAsync = false) (st : State) (ev : Ev) :
+    emitK k st ev = emit k st ev := by
+  cases k <;> first | rfl | cases hk
+
+/-- anything the inner Subject's broadcasts preserve and that does not look at `last_item` / `ended` survives a call -/
+theorem emitK_pres {k : Kind} (P : State → Prop) (hemit : ∀ st ev, P st → P (emit k st ev))
+    (hset : ∀ (st : State) (li : Option Data) (en : Option Ended), P st → P { st with lastItem := li, ended := en })
+    (st : State) (ev : Ev) (h : P st) : P (emitK k st ev) := by
+  cases k with
+  | async =>
+    unfold emitK
+    dsimp only
+    split
+    · exact h
+    · cases ev with
+      | next v => exact hset st (some v) st.ended h
+      | error e => exact hemit _ _ (hset st st.lastItem (some (.failed e)) h)
+      | complete =>
+        dsimp only
+        cases hli : st.lastItem with
+        | none => exact hemit _ _ (hset st none (some .completed) h)
+        | some v => exact hemit _ _ (hemit _ _ (hset st (some v) (some .completed) h))
+  | plain => exact hemit _ _ h
+  | behavior v => exact hemit _ _ h
+  | replay => exact hemit _ _ h
+
+theorem Inv.setMem {k st} (h : Inv k st) (li : Option Data) (en : Option Ended) :
+    Inv k { st with lastItem := li, ended := en } :=
+  ⟨h.hookOfReg, h.hookLe, h.hookInj, h.nodup, h.unseen, h.regInAlive, h.regAlive, h.regHook⟩
+
+theorem Inv.emitK {k st} (h : Inv k st) (ev : Ev) : Inv k (emitK k st ev) :=
+  emitK_pres (Inv k) (fun _ ev h => h.emit ev) (fun _ li en h => h.setMem li en) st ev h
+
 /-- overwrite one record without touching what the map relies on -/
 theorem Inv.setObs {k st} (h : Inv k st) (o : Nat) (r : ObsSt) (hseen : r.seen = true)
     (hhook : r.inHook = (st.obs o).inHook)
@@ -278,17 +313,24 @@ theorem Inv.subscribeA {k st} (h : Inv k st) (o : Nat) : Inv k (subscribeA k st 
             (fun hr => absurd hr hnr)
         · exact h.register o _ hs rfl (by simp) (by simp) (by simp)
     | replay => exact h.register o _ hs rfl (by simp) (by simp) (by simp [Kind.isReplay])
-    | async => exact h.register o _ hs rfl (by simp) (by simp) (by simp)
+    | async =>
+      dsimp only
+      split
+      · exact h.setObs o _ rfl (by simp [hdef]) (fun hr => absurd hr hnr) (fun hr => absurd hr hnr)
+          (fun hr => absurd hr hnr)
+      · exact h.setObs o _ rfl (by simp [hdef]) (fun hr => absurd hr hnr) (fun hr => absurd hr hnr)
+          (fun hr => absurd hr hnr)
+      · exact h.register o _ hs rfl (by simp [Kind.isPlain]) (by simp) (by simp [Kind.isPlain])
 
 theorem recv_fields (r : ObsSt) (ev : Ev) :
     (r.recv ev).seen = r.seen ∧ (r.recv ev).hook = r.hook ∧ (r.recv ev).inAlive = r.inAlive ∧
-    (r.recv ev).inHook = r.inHook ∧ (r.recv ev).armed = r.armed ∧ (r.recv ev).buf = r.buf := by
+    (r.recv ev).inHook = r.inHook ∧ (r.recv ev).armed = r.armed := by
   simp [ObsSt.recv]
 
 theorem foldRecv_fields (hist : List Data) (r : ObsSt) :
     let r1 := hist.foldl (fun r x => r.recv (.next x)) r
     r1.seen = r.seen ∧ r1.hook = r.hook ∧ r1.inAlive = r.inAlive ∧ r1.inHook = r.inHook ∧
-    r1.armed = r.armed ∧ r1.buf = r.buf := by
+    r1.armed = r.armed := by
   induction hist generalizing r with
   | nil => simp
   | cons x xs ih => simp only [List.foldl_cons]; have := ih (r.recv (.next x)); simp_all [ObsSt.recv]
@@ -296,7 +338,7 @@ theorem foldRecv_fields (hist : List Data) (r : ObsSt) :
 theorem handOver_fields (r : ObsSt) (hist : List Data) (we : Option Nat) (wc : Bool) :
     (handOver r hist we wc).seen = r.seen ∧ (handOver r hist we wc).hook = r.hook ∧
     (handOver r hist we wc).inAlive = r.inAlive ∧ (handOver r hist we wc).inHook = r.inHook ∧
-    (handOver r hist we wc).armed = r.armed ∧ (handOver r hist we wc).buf = r.buf := by
+    (handOver r hist we wc).armed = r.armed := by
   have h := foldRecv_fields hist r
   unfold handOver
   cases we with
@@ -444,6 +486,7 @@ theorem subscribeA_obs_other (k : Kind) (st : State) (o o' : Nat) (hne : o' ≠ 
       · split
         · simp [hne]
         · simp [register_obs, hne]
+    | async => dsimp only; split <;> simp [register_obs, hne]
     | _ => simp [register_obs, hne]
 
 theorem subscribeH_obs_other (k : Kind) (st : State) (o o' : Nat) (p : Pending) (hne : o' ≠ o) :
@@ -653,6 +696,7 @@ theorem subscribeA_marks (k : Kind) (st : State) (o : Nat) : ((subscribeA k st o
       · split
         · simp
         · simp [register_obs]
+    | async => dsimp only; split <;> simp [register_obs]
     | _ => simp [register_obs]
 
 theorem subscribeA_fresh_seen (k : Kind) (st : State) (o : Nat) (_hf : (subscribeA k st o).2.fresh = true) :
@@ -692,6 +736,7 @@ theorem subscribeA_registered (k : Kind) (st : State) (o : Nat) :
       · split
         · rfl
         · simp [register_registered]
+    | async => dsimp only; split <;> first | rfl | simp [register_registered]
     | _ => simp [register_registered]
 
 theorem subscribeA_sub (k : Kind) (st : State) (o o' : Nat) (h : o' ∈ registered (subscribeA k st o).1) :
@@ -718,9 +763,9 @@ theorem Good.step {k st} (h : Good k st) (c : Call) : Good k (step k st c) := by
     cases c with
     | subscribe o => exact (h.inv.subscribeA o).subscribeB o _ (subscribeA_fresh_seen k st o)
     | unsubscribe o => exact h.inv.unsubscribeN o
-    | next v => exact h.inv.emit _
-    | error e => exact h.inv.emit _
-    | complete => exact h.inv.emit _
+    | next v => exact h.inv.emitK (.next v)
+    | error e => exact h.inv.emitK (.error e)
+    | complete => exact h.inv.emitK .complete
   cases hk : k.isReplay with
   | false => exact ⟨hinv, hinv.armed_of_not_replay hk, fun o ho => hinv.regAlive o ho hk⟩
   | true =>
@@ -787,11 +832,11 @@ theorem Good.step {k st} (h : Good k st) (c : Call) : Good k (step k st c) := by
       exact ho
     | next v =>
       intro o' ho'
-      simp [SubjM.step, emit_registered, Ev.isTerminal] at ho'
-      simp only [SubjM.step, emit_obs h.inv, ho', if_true, recvK_hook, recvK_armed_next, recvK_alive_next]
+      simp [SubjM.step, emitK, emit_registered, Ev.isTerminal] at ho'
+      simp only [SubjM.step, emitK, emit_obs h.inv, ho', if_true, recvK_hook, recvK_armed_next, recvK_alive_next]
       exact hold o' ho'
-    | error e => intro o' ho'; simp [SubjM.step, emit_registered, Ev.isTerminal] at ho'
-    | complete => intro o' ho'; simp [SubjM.step, emit_registered, Ev.isTerminal] at ho'
+    | error e => intro o' ho'; simp [SubjM.step, emitK, emit_registered, Ev.isTerminal] at ho'
+    | complete => intro o' ho'; simp [SubjM.step, emitK, emit_registered, Ev.isTerminal] at ho'
 
 theorem Good.runFrom {k st} (h : Good k st) (cs : List Call) : Good k (runFrom k st cs) := by
   induction cs generalizing st with
@@ -810,6 +855,117 @@ theorem run_append (k : Kind) (a b : List Call) : run k (a ++ b) = runFrom k (ru
 theorem run_snoc (k : Kind) (a : List Call) (c : Call) : run k (a ++ [c]) = step k (run k a) c := by
   simp [run_append, runFrom]
 
+
+/-! ## `AsyncSubject.ended`: set exactly by the first terminal, and then the map is empty for good -/
+
+/-- for the other kinds the field is never written -/
+def EndedOk (k : Kind) (st : State) : Prop :=
+  if k.isAsync then (st.ended.isSome = true → st.observers = []) else st.ended = none
+
+theorem endedOk_init (k : Kind) : EndedOk k (init k) := by cases k <;> simp [EndedOk, init, Kind.isAsync]
+
+theorem emit_ended (k : Kind) (st : State) (ev : Ev) : (emit k st ev).ended = st.ended := rfl
+
+theorem subscribeA_ended (k : Kind) (st : State) (o : Nat) : (subscribeA k st o).1.ended = st.ended := by
+  unfold subscribeA
+  split
+  · rfl
+  · cases k with
+    | plain => rfl
+    | behavior v =>
+      dsimp only
+      split
+      · rfl
+      · split <;> rfl
+    | replay => rfl
+    | async => dsimp only; split <;> rfl
+
+theorem subscribeB_ended (k : Kind) (st : State) (o : Nat) (p : Pending) : (subscribeB k st o p).1.ended = st.ended := by
+  unfold subscribeB subscribeH reap
+  cases k <;> simp [Kind.isReplay] <;> split <;> rfl
+
+theorem step_subscribe_ended (k : Kind) (st : State) (o : Nat) : (step k st (.subscribe o)).ended = st.ended := by
+  show (subscribeB k _ o _).1.ended = _
+  rw [subscribeB_ended, subscribeA_ended]
+
+theorem unsub_ended (k : Kind) (st : State) (o : Nat) : (unsubscribeN k st o).1.ended = st.ended := by
+  unfold unsubscribeN; split <;> rfl
+
+/-- a subscriber arriving at an ended AsyncSubject is handed the result and not registered -/
+theorem async_subscribe_ended_observers (st : State) (o : Nat) (he : st.ended.isSome = true) :
+    (step .async st (.subscribe o)).observers = st.observers := by
+  simp only [step, subscribeB, Kind.isReplay, Bool.false_and, Bool.false_eq_true, ↓reduceIte, subscribeH,
+    subscribeA]
+  split
+  · rfl
+  · cases hen : st.ended with
+    | none => rw [hen] at he; cases he
+    | some en => cases en <;> rfl
+
+theorem EndedOk.step {k st} (h : EndedOk k st) (c : Call) : EndedOk k (step k st c) := by
+  cases hk : k.isAsync with
+  | false =>
+    simp only [EndedOk, hk, Bool.false_eq_true, ↓reduceIte] at h ⊢
+    cases c with
+    | subscribe o => rw [step_subscribe_ended]; exact h
+    | unsubscribe o => rw [show SubjM.step k st (.unsubscribe o) = (unsubscribeN k st o).1 from rfl, unsub_ended]; exact h
+    | next v => rw [show SubjM.step k st (.next v) = emitK k st (.next v) from rfl, emitK_of_not_async k hk]; exact h
+    | error e => rw [show SubjM.step k st (.error e) = emitK k st (.error e) from rfl, emitK_of_not_async k hk]; exact h
+    | complete => rw [show SubjM.step k st .complete = emitK k st .complete from rfl, emitK_of_not_async k hk]; exact h
+  | true =>
+    have hk' : k = .async := by cases k <;> simp_all [Kind.isAsync]
+    subst hk'
+    simp only [EndedOk, Kind.isAsync, ↓reduceIte] at h ⊢
+    cases c with
+    | subscribe o =>
+      rw [step_subscribe_ended]
+      intro he; rw [async_subscribe_ended_observers st o he]; exact h he
+    | unsubscribe o =>
+      rw [show SubjM.step .async st (.unsubscribe o) = (unsubscribeN .async st o).1 from rfl, unsub_ended]
+      intro he
+      rw [unsub_observers, h he]
+      cases (st.obs o).inHook <;> simp
+    | next v =>
+      show (emitK .async st (.next v)).ended.isSome = true → (emitK .async st (.next v)).observers = []
+      unfold emitK; dsimp only
+      split
+      · exact h
+      · rename_i hn; intro he; exact absurd he hn
+    | error e =>
+      show (emitK .async st (.error e)).ended.isSome = true → (emitK .async st (.error e)).observers = []
+      unfold emitK; dsimp only
+      split
+      · exact h
+      · intro _; simp [Ev.isTerminal]
+    | complete =>
+      show (emitK .async st .complete).ended.isSome = true → (emitK .async st .complete).observers = []
+      unfold emitK; dsimp only
+      split
+      · exact h
+      · intro _; simp [Ev.isTerminal]
+
+theorem endedOk_runFrom {k st} (h : EndedOk k st) (cs : List Call) : EndedOk k (runFrom k st cs) := by
+  induction cs generalizing st with
+  | nil => exact h
+  | cons c cs ih => exact ih (h.step c)
+
+theorem endedOk_run (k : Kind) (cs : List Call) : EndedOk k (run k cs) := endedOk_runFrom (endedOk_init k) cs
+
+theorem emitK_registered_terminal {k st} (h : EndedOk k st) (ev : Ev) (ht : ev.isTerminal = true) :
+    registered (emitK k st ev) = [] := by
+  cases hk : k.isAsync with
+  | false => rw [emitK_of_not_async k hk, emit_registered]; simp [ht]
+  | true =>
+    have hk' : k = .async := by cases k <;> simp_all [Kind.isAsync]
+    subst hk'
+    simp only [EndedOk, Kind.isAsync, ↓reduceIte] at h
+    unfold emitK; dsimp only
+    split
+    · rename_i he; simp [registered, h he]
+    · cases ev with
+      | next v => cases ht
+      | error e => simp [registered, Ev.isTerminal]
+      | complete => simp [registered, Ev.isTerminal]
 
 /-! ## the Observable contract on every subscriber's log -/
 
@@ -860,19 +1016,7 @@ theorem LogOk.recvK {r : ObsSt} (h : LogOk r) (k : Kind) (ev : Ev) : LogOk (recv
     unfold ObsSt.recv at this
     unfold SubjM.recvK LogOk at *
     cases hi : r.inAlive <;> simp_all
-  | async =>
-    obtain ⟨h1, h2⟩ := h
-    cases ev with
-    | next v => exact ⟨h1, h2⟩
-    | error e =>
-      unfold SubjM.recvK LogOk
-      cases hi : r.inAlive <;> cases ha : r.alive <;> simp_all
-      exact contract_snoc _ _ h2
-    | complete =>
-      unfold SubjM.recvK LogOk
-      cases hi : r.inAlive <;> cases ha : r.alive <;> simp_all
-      rw [← List.append_assoc]
-      exact contract_snoc _ _ (by simp [nonTerminal_append, h2, nonTerminal_map_next])
+  | async => exact h.recv ev
 
 theorem logOk_default : LogOk {} := by simp [LogOk, contract, nonTerminal]
 
@@ -893,6 +1037,12 @@ theorem LogOk.subscribeA {k st} (h : ∀ o, LogOk (st.obs o)) (o o' : Nat) : Log
         · split
           · simp [LogOk, contract, nonTerminal]
           · simp [register_obs, LogOk, contract, nonTerminal, Ev.isTerminal]
+      | async =>
+        dsimp only
+        split
+        · simp [LogOk, contract, nonTerminal]
+        · cases st.lastItem <;> simp [asyncHandover, LogOk, contract, nonTerminal, Ev.isTerminal]
+        · simp [register_obs, LogOk, contract, nonTerminal]
       | _ => simp [register_obs, LogOk, contract, nonTerminal]
   · rw [subscribeA_obs_other _ _ _ _ hne]; exact h o'
 
@@ -947,14 +1097,18 @@ theorem LogOk.unsubscribeN {k st} (h : ∀ o, LogOk (st.obs o)) (o o' : Nat) :
     exact ⟨(h o').1, by simp⟩
   · exact h o'
 
+theorem LogOk.emitK {k st} (h : ∀ o, LogOk (st.obs o)) (ev : Ev) (o : Nat) : LogOk ((emitK k st ev).obs o) :=
+  emitK_pres (k := k) (fun st => ∀ o, LogOk (st.obs o)) (fun _ ev h o => LogOk.emit h ev o)
+    (fun _ _ _ h => h) st ev h o
+
 theorem LogOk.step {k st} (h : ∀ o, LogOk (st.obs o)) (c : Call) : ∀ o, LogOk ((step k st c).obs o) := by
   intro o
   cases c with
   | subscribe o' => exact LogOk.subscribeB (fun o => LogOk.subscribeA h o' o) o' _ o
   | unsubscribe o' => exact LogOk.unsubscribeN h o' o
-  | next v => exact LogOk.emit h _ o
-  | error e => exact LogOk.emit h _ o
-  | complete => exact LogOk.emit h _ o
+  | next v => exact LogOk.emitK h (.next v) o
+  | error e => exact LogOk.emitK h (.error e) o
+  | complete => exact LogOk.emitK h .complete o
 
 theorem logOk_runFrom {k st} (h : ∀ o, LogOk (st.obs o)) (cs : List Call) :
     ∀ o, LogOk ((runFrom k st cs).obs o) := by
@@ -977,9 +1131,13 @@ example : contract [.complete, .error 1] = false := by decide
 
 /-! ## C10, plain Subject clauses (stated for every kind that forwards: plain, behavior, replay) -/
 
-theorem step_emit (k : Kind) (st : State) (c : Call) (ev : Ev) (h : c.toEv? = some ev) :
-    step k st c = emit k st ev := by
+theorem step_emitK (k : Kind) (st : State) (c : Call) (ev : Ev) (h : c.toEv? = some ev) :
+    step k st c = emitK k st ev := by
   cases c <;> simp [Call.toEv?] at h <;> subst h <;> rfl
+
+theorem step_emit (k : Kind) (hk : k.isAsync = false) (st : State) (c : Call) (ev : Ev) (h : c.toEv? = some ev) :
+    step k st c = emit k st ev := by
+  rw [step_emitK k st c ev h, emitK_of_not_async k hk]
 
 theorem recvK_log (k : Kind) (hk : k.isAsync = false) (ev : Ev) (r : ObsSt) :
     (recvK k ev r).log = if (k.isPlain || r.inAlive) && r.alive then r.log ++ [ev] else r.log := by
@@ -1008,7 +1166,7 @@ theorem delivers_to_current (k : Kind) (hk : k.isAsync = false) (cs : List Call)
     logOf (step k (run k cs) c) o =
       if o ∈ registered (run k cs) ∧ aliveOf (run k cs) o = true then logOf (run k cs) o ++ [ev]
       else logOf (run k cs) o := by
-  rw [step_emit k _ c ev hc]; exact emit_log (good_run k cs).inv hk ev o
+  rw [step_emit k hk _ c ev hc]; exact emit_log (good_run k cs).inv hk ev o
 
 /-- for every kind (ReplaySubject too: replay_subject.rs:95-99 takes the forwarder of a subscriber that was
     ended by the hand-over out again) the map never holds a subscriber that is no longer subscribed … -/
@@ -1039,7 +1197,7 @@ theorem subscribe_log_other (k : Kind) (st : State) (o' o : Nat) (hne : o ≠ o'
 /-- **C10 `no_observer_after_terminal`**: right after `error` / `complete` the map is empty (every kind). -/
 theorem no_observer_after_terminal (k : Kind) (cs : List Call) (c : Call) (ev : Ev) (hc : c.toEv? = some ev)
     (ht : ev.isTerminal = true) : registered (step k (run k cs) c) = [] := by
-  rw [step_emit k _ c ev hc, emit_registered]; simp [ht]
+  rw [step_emitK k _ c ev hc]; exact emitK_registered_terminal (endedOk_run k cs) ev ht
 
 /-- and — every kind, every call sequence — an observer whose log holds a terminal is in no reachable map -/
 theorem terminated_not_registered (k : Kind) (cs : List Call) (o : Nat)
@@ -1055,6 +1213,21 @@ theorem replay_late_subscriber_not_held :
     logOf st 0 = [.next (.int 1), .complete] ∧ aliveOf st 0 = false ∧ registered st = [] := by decide
 
 /-! ### unsubscribe -/
+
+theorem gone_emitK {k st} (h : Inv k st) (o : Nat) (hs : (st.obs o).seen = true) (hn : o ∉ registered st) (ev : Ev) :
+    Inv k (emitK k st ev) ∧ ((emitK k st ev).obs o).seen = true ∧ o ∉ registered (emitK k st ev) :=
+  emitK_pres (k := k) (fun st => Inv k st ∧ (st.obs o).seen = true ∧ o ∉ registered st)
+    (fun st ev ⟨hi, hs, hn⟩ => ⟨hi.emit ev, by simp [emit_obs hi, hn, hs], by
+      rw [emit_registered]; split
+      · simp
+      · exact hn⟩)
+    (fun _ li en ⟨hi, hs, hn⟩ => ⟨hi.setMem li en, hs, hn⟩) st ev ⟨h, hs, hn⟩
+
+theorem emitK_seen {k st} (h : Inv k st) (ev : Ev) (o : Nat) :
+    ((emitK k st ev).obs o).seen = (st.obs o).seen :=
+  (emitK_pres (k := k) (fun st' => Inv k st' ∧ (st'.obs o).seen = (st.obs o).seen)
+    (fun st' ev ⟨hi, hs⟩ => ⟨hi.emit ev, by rw [emit_obs hi]; split <;> simp [recvK_seen, hs]⟩)
+    (fun _ li en ⟨hi, hs⟩ => ⟨hi.setMem li en, hs⟩) st ev ⟨h, rfl⟩).2
 
 /-- a used id that is not in the map never comes back -/
 theorem gone_step {k st} (h : Good k st) (o : Nat) (hs : (st.obs o).seen = true) (hn : o ∉ registered st)
@@ -1073,9 +1246,9 @@ theorem gone_step {k st} (h : Good k st) (o : Nat) (hs : (st.obs o).seen = true)
     simp only [step, unsub_obs]; split
     · rename_i hh; exact hh.2
     · exact hs
-  | next v => simp [step, emit_obs h.inv, emit_registered, hn, hs]
-  | error e => simp [step, emit_obs h.inv, emit_registered, hn, hs]
-  | complete => simp [step, emit_obs h.inv, emit_registered, hn, hs]
+  | next v => exact (gone_emitK h.inv o hs hn (.next v)).2
+  | error e => exact (gone_emitK h.inv o hs hn (.error e)).2
+  | complete => exact (gone_emitK h.inv o hs hn .complete).2
 
 theorem gone_runFrom {k st} (h : Good k st) (o : Nat) (hs : (st.obs o).seen = true) (hn : o ∉ registered st)
     (cs : List Call) : o ∉ registered (runFrom k st cs) := by
@@ -1103,9 +1276,9 @@ theorem step_seen_mono (k : Kind) (st : State) (c : Call) (o : Nat) (hs : (st.ob
     simp only [step, unsub_obs]; split
     · rename_i hh; exact hh.2
     · exact hs
-  | next v => simp only [step, emit_obs h]; split <;> simp [recvK_seen, hs]
-  | error e => simp only [step, emit_obs h]; split <;> simp [recvK_seen, hs]
-  | complete => simp only [step, emit_obs h]; split <;> simp [recvK_seen, hs]
+  | next v => show ((emitK k st (.next v)).obs o).seen = true; rw [emitK_seen h]; exact hs
+  | error e => show ((emitK k st (.error e)).obs o).seen = true; rw [emitK_seen h]; exact hs
+  | complete => show ((emitK k st .complete).obs o).seen = true; rw [emitK_seen h]; exact hs
 
 theorem subscribeH_seen (k : Kind) (st : State) (o : Nat) (p : Pending) :
     ((subscribeH k st o p).obs o).seen = (st.obs o).seen := by
@@ -1134,9 +1307,9 @@ theorem step_seen_iff {k st} (h : Good k st) (c : Call) (o : Nat) :
         simp only [step, unsub_obs] at hs; split at hs
         · rename_i hh; rw [hh.1]; exact hh.2
         · exact hs
-      | next v => simp only [step, emit_obs h.inv] at hs; split at hs <;> simpa [recvK_seen] using hs
-      | error e => simp only [step, emit_obs h.inv] at hs; split at hs <;> simpa [recvK_seen] using hs
-      | complete => simp only [step, emit_obs h.inv] at hs; split at hs <;> simpa [recvK_seen] using hs
+      | next v => rwa [show step k st (.next v) = emitK k st (.next v) from rfl, emitK_seen h.inv] at hs
+      | error e => rwa [show step k st (.error e) = emitK k st (.error e) from rfl, emitK_seen h.inv] at hs
+      | complete => rwa [show step k st .complete = emitK k st .complete from rfl, emitK_seen h.inv] at hs
   · rintro (hm | rfl)
     · exact step_seen_mono k _ c o hm h.inv
     · exact step_subscribe_marks k st o
@@ -1196,6 +1369,18 @@ def plainExpect (o : Nat) : List Call → List Ev
   | .unsubscribe o' :: cs => if o' = o then [] else plainExpect o cs
   | .subscribe _ :: cs => plainExpect o cs
 
+theorem frozen_emitK {k st} (h : Inv k st) (o : Nat) (hs : (st.obs o).seen = true)
+    (hd : (st.obs o).alive = false) (ev : Ev) :
+    ((emitK k st ev).obs o).seen = true ∧ ((emitK k st ev).obs o).alive = false ∧
+    ((emitK k st ev).obs o).log = (st.obs o).log :=
+  (emitK_pres (k := k) (fun st' => Inv k st' ∧ (st'.obs o).seen = true ∧ (st'.obs o).alive = false ∧
+      (st'.obs o).log = (st.obs o).log)
+    (fun st' ev ⟨hi, hs', hd', hl'⟩ => ⟨hi.emit ev, by
+      rw [emit_obs hi]; split
+      · exact ⟨by rw [recvK_seen]; exact hs', (recvK_dead _ _ _ hd').1, by rw [(recvK_dead _ _ _ hd').2]; exact hl'⟩
+      · exact ⟨hs', hd', hl'⟩⟩)
+    (fun _ li en ⟨hi, x⟩ => ⟨hi.setMem li en, x⟩) st ev ⟨h, hs, hd, rfl⟩).2
+
 /-- a subscriber that is no longer subscribed records nothing more, whatever is called -/
 theorem frozen_step {k st} (h : Good k st) (o : Nat) (hs : (st.obs o).seen = true)
     (hd : (st.obs o).alive = false) (c : Call) :
@@ -1210,18 +1395,9 @@ theorem frozen_step {k st} (h : Good k st) (o : Nat) (hs : (st.obs o).seen = tru
     simp only [step, unsub_obs]; split
     · rename_i hh; rw [hh.1]; simp [hh.2]
     · exact ⟨hs, hd, rfl⟩
-  | next v =>
-    simp only [step, emit_obs h.inv]; split
-    · exact ⟨by rw [recvK_seen]; exact hs, recvK_dead _ _ _ hd⟩
-    · exact ⟨hs, hd, rfl⟩
-  | error e =>
-    simp only [step, emit_obs h.inv]; split
-    · exact ⟨by rw [recvK_seen]; exact hs, recvK_dead _ _ _ hd⟩
-    · exact ⟨hs, hd, rfl⟩
-  | complete =>
-    simp only [step, emit_obs h.inv]; split
-    · exact ⟨by rw [recvK_seen]; exact hs, recvK_dead _ _ _ hd⟩
-    · exact ⟨hs, hd, rfl⟩
+  | next v => exact frozen_emitK h.inv o hs hd (.next v)
+  | error e => exact frozen_emitK h.inv o hs hd (.error e)
+  | complete => exact frozen_emitK h.inv o hs hd .complete
 
 theorem frozen_runFrom {k st} (h : Good k st) (o : Nat) (hs : (st.obs o).seen = true)
     (hd : (st.obs o).alive = false) (cs : List Call) :
@@ -1270,33 +1446,36 @@ theorem live_runFrom {k st} (hk : k.isAsync = false) (h : Good k st) (o : Nat) (
       have hlog := emit_log h.inv hk (.next v) o
       simp only [hr, aliveOf, ha, and_self, ↓reduceIte] at hlog
       have hreg : o ∈ registered (step k st (.next v)) := by
-        simp [step, emit_registered, Ev.isTerminal, hr]
+        simp [step, emitK_of_not_async k hk, emit_registered, Ev.isTerminal, hr]
       have hal : ((step k st (.next v)).obs o).alive = true := by
-        simp only [step, emit_obs h.inv, hr, ↓reduceIte, recvK_alive_next]; exact ha
+        simp only [step, emitK_of_not_async k hk, emit_obs h.inv, hr, ↓reduceIte, recvK_alive_next]; exact ha
       rw [ih (h.step _) hreg hal]
-      show logOf (emit k st (.next v)) o ++ _ = _
+      show logOf (emitK k st (.next v)) o ++ _ = _
+      rw [emitK_of_not_async k hk]
       rw [hlog]; simp [plainExpect]
     | error e =>
       have hlog := emit_log h.inv hk (.error e) o
       simp only [hr, aliveOf, ha, and_self, ↓reduceIte] at hlog
       have hd : ((step k st (.error e)).obs o).alive = false := by
-        simp only [step, emit_obs h.inv, hr, ↓reduceIte, recvK_alive k hk]
+        simp only [step, emitK_of_not_async k hk, emit_obs h.inv, hr, ↓reduceIte, recvK_alive k hk]
         have := h.inv.regInAlive o hr
         cases hp : k.isPlain <;> simp_all [Ev.isTerminal]
       have hfz := frozen_runFrom (h.step (.error e)) o (step_seen_mono k st _ o hseen h.inv) hd cs
       rw [hfz.1]
-      show logOf (emit k st (.error e)) o = _
+      show logOf (emitK k st (.error e)) o = _
+      rw [emitK_of_not_async k hk]
       rw [hlog]; simp [plainExpect]
     | complete =>
       have hlog := emit_log h.inv hk .complete o
       simp only [hr, aliveOf, ha, and_self, ↓reduceIte] at hlog
       have hd : ((step k st .complete).obs o).alive = false := by
-        simp only [step, emit_obs h.inv, hr, ↓reduceIte, recvK_alive k hk]
+        simp only [step, emitK_of_not_async k hk, emit_obs h.inv, hr, ↓reduceIte, recvK_alive k hk]
         have := h.inv.regInAlive o hr
         cases hp : k.isPlain <;> simp_all [Ev.isTerminal]
       have hfz := frozen_runFrom (h.step .complete) o (step_seen_mono k st _ o hseen h.inv) hd cs
       rw [hfz.1]
-      show logOf (emit k st .complete) o = _
+      show logOf (emitK k st .complete) o = _
+      rw [emitK_of_not_async k hk]
       rw [hlog]; simp [plainExpect]
 
 theorem unseen_of_not_subscribed (k : Kind) (pre : List Call) (o : Nat) (h : Call.subscribe o ∉ pre) :
@@ -1372,6 +1551,7 @@ theorem subscribeA_mem (k : Kind) (st : State) (o : Nat) : mem (subscribeA k st 
       split
       · rfl
       · split <;> rfl
+    | async => dsimp only; split <;> rfl
     | _ => rfl
 
 theorem subscribeH_mem (k : Kind) (st : State) (o : Nat) (p : Pending) : mem (subscribeH k st o p) = mem st := by
@@ -1406,9 +1586,9 @@ theorem behavior_mem (i : Data) (st : State) (cs : List Call) :
     cases c with
     | subscribe o => have := step_mem_sub (.behavior i) st o; simp only [mem, Prod.mk.injEq] at this; simp [latestValue, storedError, this]
     | unsubscribe o => have := step_mem_unsub (.behavior i) st o; simp only [mem, Prod.mk.injEq] at this; simp [latestValue, storedError, this]
-    | next v => simp [latestValue, storedError, step, emit, newLastItem, newLastError]
-    | error e => simp [latestValue, storedError, step, emit, newLastItem, newLastError]
-    | complete => simp [latestValue, storedError, step, emit, newLastItem, newLastError]
+    | next v => simp [latestValue, storedError, step, emitK, emit, newLastItem, newLastError]
+    | error e => simp [latestValue, storedError, step, emitK, emit, newLastItem, newLastError]
+    | complete => simp [latestValue, storedError, step, emitK, emit, newLastItem, newLastError]
 
 theorem replay_mem (st : State) (cs : List Call) :
     (runFrom .replay st cs).items = st.items ++ pastItems cs ∧
@@ -1424,9 +1604,9 @@ theorem replay_mem (st : State) (cs : List Call) :
     cases c with
     | subscribe o => have := step_mem_sub .replay st o; simp only [mem, Prod.mk.injEq] at this; simp [pastItems, storedError, completedIn, this]
     | unsubscribe o => have := step_mem_unsub .replay st o; simp only [mem, Prod.mk.injEq] at this; simp [pastItems, storedError, completedIn, this]
-    | next v => simp [pastItems, storedError, completedIn, step, emit, newItems, newWasError, newWasCompleted]
-    | error e => simp [pastItems, storedError, completedIn, step, emit, newItems, newWasError, newWasCompleted]
-    | complete => simp [pastItems, storedError, completedIn, step, emit, newItems, newWasError, newWasCompleted]
+    | next v => simp [pastItems, storedError, completedIn, step, emitK, emit, newItems, newWasError, newWasCompleted]
+    | error e => simp [pastItems, storedError, completedIn, step, emitK, emit, newItems, newWasError, newWasCompleted]
+    | complete => simp [pastItems, storedError, completedIn, step, emitK, emit, newItems, newWasError, newWasCompleted]
 
 /-! ## C10 `behavior_handover` -/
 
@@ -1632,30 +1812,120 @@ example : logOf (run .replay [.next (.int 1), .subscribe 0, .next (.int 2), .sub
     = [.next (.int 1), .next (.int 2), .next (.int 3), .complete] := by decide
 example : logOf (run .replay [.next (.int 1), .error 9, .subscribe 2, .next (.int 3)]) 2 = [.next (.int 1), .error 9] := by decide
 
-/-! ## C10 `async_last_only` -/
+/-! ## C10 `async_last_only` — the AsyncSubject owns the last item and the terminal (async_subject.rs) -/
 
-/-- what an AsyncSubject owes an observer subscribed when `cs` starts: nothing until the first terminal; on
-    `complete` the last item (if any) and `complete`; on `error` just the error; nothing if it left first -/
+/-- what an AsyncSubject owes an observer registered when `cs` starts (`last` = the item stored so far): nothing
+    until the first terminal; on `complete` the last item (if any) and `complete`; on `error` the error -/
 def asyncExpect (o : Nat) : Option Data → List Call → List Ev
   | _, [] => []
   | _, .next v :: cs => asyncExpect o (some v) cs
   | _, .error e :: _ => [.error e]
-  | last, .complete :: _ => last.toList.map .next ++ [.complete]
+  | last, .complete :: _ => asyncHandover last
   | last, .unsubscribe o' :: cs => if o' = o then [] else asyncExpect o last cs
   | last, .subscribe _ :: cs => asyncExpect o last cs
 
-theorem pushLast_opt (last : Option Data) (v : Data) : pushLast last.toList v = [v] := by
-  cases last <;> simp [pushLast]
+/-- `(ended, last_item)` after one more call: `next` stores, the first terminal is recorded, nothing after it -/
+def asyncMemStep (p : Option Ended × Option Data) (c : Call) : Option Ended × Option Data :=
+  if p.1.isSome then p else
+  match c with
+  | .next v => (none, some v)
+  | .error e => (some (.failed e), p.2)
+  | .complete => (some .completed, p.2)
+  | _ => p
 
-theorem async_live_runFrom {st} (h : Good .async st) (o : Nat) (last : Option Data) (hr : o ∈ registered st)
-    (hlog : (st.obs o).log = []) (hbuf : (st.obs o).buf = last.toList) (cs : List Call) :
-    logOf (runFrom .async st cs) o = asyncExpect o last cs := by
-  induction cs generalizing st last with
+def asyncMem (cs : List Call) : Option Ended × Option Data := cs.foldl asyncMemStep (none, none)
+
+/-- what the subject hands to whoever subscribes from now on -/
+def asyncResultOf (p : Option Ended × Option Data) : List Ev :=
+  match p.1 with
+  | some (.failed e) => [.error e]
+  | some .completed => asyncHandover p.2
+  | none => []
+
+theorem emit_lastItem_async (st : State) (ev : Ev) : (emit .async st ev).lastItem = st.lastItem := by
+  cases ev <;> rfl
+
+theorem async_step_mem (st : State) (c : Call) :
+    ((step .async st c).ended, (step .async st c).lastItem) = asyncMemStep (st.ended, st.lastItem) c := by
+  cases c with
+  | subscribe o =>
+    have h1 := step_subscribe_ended .async st o
+    have h2 := step_mem_sub .async st o
+    simp only [mem, Prod.mk.injEq] at h2
+    simp only [h1, h2.1, asyncMemStep]; split <;> rfl
+  | unsubscribe o =>
+    have h1 := unsub_ended .async st o
+    have h2 := step_mem_unsub .async st o
+    simp only [mem, Prod.mk.injEq] at h2
+    show ((unsubscribeN .async st o).1.ended, (step .async st (.unsubscribe o)).lastItem) = _
+    simp only [h1, h2.1, asyncMemStep]; split <;> rfl
+  | next v =>
+    show ((emitK .async st (.next v)).ended, (emitK .async st (.next v)).lastItem) = _
+    unfold emitK asyncMemStep; dsimp only
+    cases he : st.ended.isSome
+    · have : st.ended = none := by cases h : st.ended <;> simp_all
+      simp [this]
+    · simp
+  | error e =>
+    show ((emitK .async st (.error e)).ended, (emitK .async st (.error e)).lastItem) = _
+    unfold emitK asyncMemStep; dsimp only
+    cases he : st.ended.isSome <;> simp [emit_ended, emit_lastItem_async]
+  | complete =>
+    show ((emitK .async st .complete).ended, (emitK .async st .complete).lastItem) = _
+    unfold emitK asyncMemStep; dsimp only
+    cases he : st.ended.isSome
+    · cases hli : st.lastItem <;> simp [emit_ended, emit_lastItem_async]
+    · simp
+
+theorem async_runFrom_mem (cs : List Call) : ∀ st : State,
+    ((runFrom .async st cs).ended, (runFrom .async st cs).lastItem) = cs.foldl asyncMemStep (st.ended, st.lastItem) := by
+  induction cs with
+  | nil => intro st; rfl
+  | cons c cs ih =>
+    intro st
+    show ((runFrom .async (step .async st c) cs).ended, (runFrom .async (step .async st c) cs).lastItem) = _
+    rw [ih, async_step_mem]; rfl
+
+/-- the two fields of the subject as a function of the calls -/
+theorem async_run_mem (cs : List Call) : ((run .async cs).ended, (run .async cs).lastItem) = asyncMem cs :=
+  async_runFrom_mem cs (init .async)
+
+theorem asyncMem_frozen (cs : List Call) (p : Option Ended × Option Data) (h : p.1.isSome = true) :
+    cs.foldl asyncMemStep p = p := by
+  induction cs with
+  | nil => rfl
+  | cons c cs ih => rw [List.foldl_cons, show asyncMemStep p c = p by simp [asyncMemStep, h]]; exact ih
+
+/-- one broadcast of the inner Subject of an AsyncSubject: exactly the registered, still subscribed observers get it -/
+theorem emit_log_async {st} (h : Inv .async st) (ev : Ev) (o : Nat) :
+    logOf (emit .async st ev) o =
+      if o ∈ registered st ∧ aliveOf st o = true then logOf st o ++ [ev] else logOf st o := by
+  unfold logOf aliveOf
+  rw [emit_obs h]
+  by_cases ho : o ∈ registered st
+  · simp only [ho, ↓reduceIte, true_and, recvK, ObsSt.recv]
+  · simp [ho]
+
+theorem emit_alive_async {st} (h : Inv .async st) (ev : Ev) (o : Nat) (ho : o ∈ registered st) :
+    ((emit .async st ev).obs o).alive = ((st.obs o).alive && !ev.isTerminal) := by
+  rw [emit_obs h, if_pos ho]; rfl
+
+/-- a registered observer of a not yet ended AsyncSubject: from here on it gets exactly `asyncExpect` -/
+theorem async_live_runFrom {st} (h : Good .async st) (he : EndedOk .async st) (o : Nat) (hr : o ∈ registered st)
+    (hlog : (st.obs o).log = []) (cs : List Call) :
+    logOf (runFrom .async st cs) o = asyncExpect o st.lastItem cs := by
+  induction cs generalizing st with
   | nil => simp [runFrom, asyncExpect, logOf, hlog]
   | cons c cs ih =>
     have hseen := h.inv.regSeen o hr
-    have ha := h.inv.regAlive o hr rfl
-    have hi := h.inv.regInAlive o hr rfl
+    have ha := h.alive o hr
+    have hen : st.ended = none := by
+      simp only [EndedOk, Kind.isAsync, ↓reduceIte] at he
+      cases hx : st.ended with
+      | none => rfl
+      | some x =>
+        have := he (by simp [hx])
+        simp [registered, this] at hr
     show logOf (runFrom .async (step .async st c) cs) o = _
     cases c with
     | subscribe o' =>
@@ -1667,7 +1937,9 @@ theorem async_live_runFrom {st} (h : Good .async st) (o : Nat) (last : Option Da
         by_cases hne : o = o'
         · subst hne; rw [step_subscribe_seen .async st o hseen]; exact hr
         · exact step_subscribe_mono h.inv o' o hne hr
-      rw [ih (h.step _) last hreg (by rw [hobs]; exact hlog) (by rw [hobs]; exact hbuf)]
+      have hm := step_mem_sub .async st o'
+      simp only [mem, Prod.mk.injEq] at hm
+      rw [ih (h.step _) (he.step _) hreg (by rw [hobs]; exact hlog), hm.1]
       simp [asyncExpect]
     | unsubscribe o' =>
       by_cases hne : o' = o
@@ -1679,41 +1951,215 @@ theorem async_live_runFrom {st} (h : Good .async st) (o : Nat) (last : Option Da
           simp only [step, unsub_obs]; rw [if_neg]; intro hh; exact hne hh.1.symm
         have hreg : o ∈ registered (step .async st (.unsubscribe o')) :=
           (unsub_mem h.inv o' o).2 ⟨hr, fun hh => hne hh.1.symm⟩
-        rw [ih (h.step _) last hreg (by rw [hobs]; exact hlog) (by rw [hobs]; exact hbuf)]
+        have hm := step_mem_unsub .async st o'
+        simp only [mem, Prod.mk.injEq] at hm
+        rw [ih (h.step _) (he.step _) hreg (by rw [hobs]; exact hlog), hm.1]
         simp [asyncExpect, hne]
     | next v =>
-      have hobs : (step .async st (.next v)).obs o = { st.obs o with buf := [v] } := by
-        simp [step, emit_obs h.inv, hr, recvK, hi, hbuf, pushLast_opt]
-      have hreg : o ∈ registered (step .async st (.next v)) := by
-        simp [step, emit_registered, Ev.isTerminal, hr]
-      rw [ih (h.step _) (some v) hreg (by rw [hobs]; exact hlog) (by rw [hobs]; rfl)]
+      have hst : step .async st (.next v) = { st with lastItem := some v } := by
+        show emitK .async st (.next v) = _
+        simp [emitK, hen]
+      rw [ih (h.step _) (he.step _) (by rw [hst]; exact hr) (by rw [hst]; exact hlog), hst]
       simp [asyncExpect]
     | error e =>
-      have hobs : ((step .async st (.error e)).obs o).log = [.error e] ∧ ((step .async st (.error e)).obs o).alive = false := by
-        simp [step, emit_obs h.inv, hr, recvK, hi, ha, hlog]
-      have hfz := frozen_runFrom (h.step (.error e)) o (step_seen_mono .async st _ o hseen h.inv) hobs.2 cs
-      rw [hfz.1]; simp [logOf, hobs.1, asyncExpect]
+      have hst : step .async st (.error e) = emit .async { st with ended := some (.failed e) } (.error e) := by
+        show emitK .async st (.error e) = _
+        simp [emitK, hen]
+      have hi1 := h.inv.setMem st.lastItem (some (.failed e))
+      have hr1 : o ∈ registered ({ st with ended := some (.failed e) } : State) := hr
+      have ha1 : aliveOf ({ st with ended := some (.failed e) } : State) o = true := ha
+      have hl := emit_log_async hi1 (.error e) o
+      have hal := emit_alive_async hi1 (.error e) o hr
+      have hfz := frozen_runFrom (h.step (.error e)) o (step_seen_mono .async st _ o hseen h.inv)
+        (by rw [hst, hal]; simp [Ev.isTerminal]) cs
+      rw [hfz.1, hst, hl, if_pos ⟨hr1, ha1⟩]
+      simp [logOf, hlog, asyncExpect]
     | complete =>
-      have hobs : ((step .async st .complete).obs o).log = last.toList.map .next ++ [.complete] ∧
-          ((step .async st .complete).obs o).alive = false := by
-        simp [step, emit_obs h.inv, hr, recvK, hi, ha, hlog, hbuf]
-      have hfz := frozen_runFrom (h.step .complete) o (step_seen_mono .async st _ o hseen h.inv) hobs.2 cs
-      rw [hfz.1]; simp [logOf, hobs.1, asyncExpect]
+      cases hli : st.lastItem with
+      | none =>
+        have hst : step .async st .complete = emit .async { st with ended := some .completed } .complete := by
+          show emitK .async st .complete = _
+          simp [emitK, hen, hli]
+        have hi1 := h.inv.setMem st.lastItem (some .completed)
+        have hr1 : o ∈ registered ({ st with ended := some .completed } : State) := hr
+        have ha1 : aliveOf ({ st with ended := some .completed } : State) o = true := ha
+        have hl := emit_log_async hi1 .complete o
+        have hal := emit_alive_async hi1 .complete o hr
+        have hfz := frozen_runFrom (h.step .complete) o (step_seen_mono .async st _ o hseen h.inv)
+          (by rw [hst, hal]; simp [Ev.isTerminal]) cs
+        rw [hfz.1, hst, hl, if_pos ⟨hr1, ha1⟩]
+        simp [logOf, hlog, asyncExpect, asyncHandover]
+      | some v =>
+        have hst : step .async st .complete =
+            emit .async (emit .async { st with ended := some .completed } (.next v)) .complete := by
+          show emitK .async st .complete = _
+          simp [emitK, hen, hli]
+        have hi1 := h.inv.setMem st.lastItem (some .completed)
+        have hi2 := hi1.emit (.next v)
+        have hr1 : o ∈ registered ({ st with ended := some .completed } : State) := hr
+        have ha1 : aliveOf ({ st with ended := some .completed } : State) o = true := ha
+        have hr2 : o ∈ registered (emit .async { st with ended := some .completed } (.next v)) := by
+          rw [emit_registered]; simp only [Ev.isTerminal, Bool.false_eq_true, ↓reduceIte]; exact hr
+        have hl1 := emit_log_async hi1 (.next v) o
+        have hal1 := emit_alive_async hi1 (.next v) o hr
+        have hl2 := emit_log_async hi2 .complete o
+        have hal2 := emit_alive_async hi2 .complete o hr2
+        have ha2 : aliveOf (emit .async { st with ended := some .completed } (.next v)) o = true := by
+          show ((emit .async _ (.next v)).obs o).alive = true
+          rw [hal1]; simpa [Ev.isTerminal] using ha
+        have hfz := frozen_runFrom (h.step .complete) o (step_seen_mono .async st _ o hseen h.inv)
+          (by rw [hst, hal2]; simp [Ev.isTerminal]) cs
+        rw [hfz.1, hst, hl2, if_pos ⟨hr2, ha2⟩, hl1, if_pos ⟨hr1, ha1⟩]
+        simp [logOf, hlog, asyncExpect, asyncHandover]
 
-/-- **C10 `async_last_only`**: for all calls before and after, a subscriber of an AsyncSubject sees nothing
-    until the subject terminates; then the last item emitted since it subscribed (if any) and `complete`, or
-    just the error. -/
+/-- what `subscribe o` does for an unused id: hand-over of the recorded result, or registration -/
+theorem async_subscribe_fresh (st : State) (o : Nat) (hu : (st.obs o).seen = false) :
+    step .async st (.subscribe o) =
+      match st.ended with
+      | some (.failed e) => { st with obs := upd st.obs o { seen := true, log := [.error e] } }
+      | some .completed => { st with obs := upd st.obs o { seen := true, log := asyncHandover st.lastItem } }
+      | none => register st o { seen := true, alive := true, hook := true } := by
+  simp only [step, subscribeB, Kind.isReplay, Bool.false_and, Bool.false_eq_true, ↓reduceIte, subscribeH,
+    subscribeA, hu]
+  cases st.ended with
+  | none => rfl
+  | some en => cases en <;> rfl
+
+/-- **C10 `async_last_only`** (ReactiveX AsyncSubject): whatever was called before (`pre`) and after (`post`), a
+    new subscriber gets the recorded error, or — the subject having completed — the last item (if any) and
+    `complete`, at once; otherwise nothing until the terminal, and then exactly that. -/
 theorem async_last_only (pre post : List Call) (o : Nat) (hfresh : Call.subscribe o ∉ pre) :
-    logOf (run .async (pre ++ .subscribe o :: post)) o = asyncExpect o none post := by
+    logOf (run .async (pre ++ .subscribe o :: post)) o =
+      match (asyncMem pre).1 with
+      | some (.failed e) => [.error e]
+      | some .completed => asyncHandover (asyncMem pre).2
+      | none => asyncExpect o (asyncMem pre).2 post := by
   rw [run_append]
   have hu := unseen_of_not_subscribed .async pre o hfresh
   have hg := good_run .async pre
+  have he := endedOk_run .async pre
+  have hm := async_run_mem pre
+  simp only [Prod.ext_iff] at hm
+  rw [← hm.1, ← hm.2]
   show logOf (runFrom .async (step .async (run .async pre) (.subscribe o)) post) o = _
-  have hst : (step .async (run .async pre) (.subscribe o)) =
-      register (run .async pre) o { seen := true, alive := true, hook := true, inAlive := true, armed := true } := by
-    simp [step, subscribeA, subscribeB, subscribeH, Kind.isReplay, hu]
-  exact async_live_runFrom (hg.step _) o none (by rw [hst, register_registered]; simp)
-    (by rw [hst, register_obs]; simp) (by rw [hst, register_obs]; simp) post
+  have hst := async_subscribe_fresh (run .async pre) o hu
+  have hseen := step_subscribe_marks .async (run .async pre) o
+  cases hen : (run .async pre).ended with
+  | none =>
+    rw [hen] at hst
+    have hli : (step .async (run .async pre) (.subscribe o)).lastItem = (run .async pre).lastItem := by rw [hst]; rfl
+    rw [async_live_runFrom (hg.step _) (he.step _) o (by rw [hst, register_registered]; simp)
+      (by rw [hst, register_obs]; simp), hli]
+  | some en =>
+    rw [hen] at hst
+    have hd : ((step .async (run .async pre) (.subscribe o)).obs o).alive = false := by
+      cases en <;> (rw [hst]; simp)
+    have hfz := frozen_runFrom (hg.step (.subscribe o)) o hseen hd post
+    rw [hfz.1]
+    cases en <;> (rw [hst]; simp [logOf])
+
+/-- `asyncExpect` of a subscriber that never unsubscribes = what the subject will have recorded -/
+theorem asyncExpect_eq_result (o : Nat) (cs : List Call) (hun : Call.unsubscribe o ∉ cs) : ∀ last : Option Data,
+    asyncExpect o last cs = asyncResultOf (cs.foldl asyncMemStep (none, last)) := by
+  induction cs with
+  | nil => intro last; rfl
+  | cons c cs ih =>
+    intro last
+    have hun' : Call.unsubscribe o ∉ cs := fun h => hun (List.mem_cons_of_mem _ h)
+    cases c with
+    | subscribe o' => simpa [asyncExpect, asyncMemStep] using ih hun' last
+    | unsubscribe o' =>
+      have hne : o' ≠ o := fun e => hun (by rw [e]; exact List.mem_cons_self ..)
+      simpa [asyncExpect, asyncMemStep, hne] using ih hun' last
+    | next v => simpa [asyncExpect, asyncMemStep] using ih hun' (some v)
+    | error e =>
+      rw [List.foldl_cons, show asyncMemStep (none, last) (.error e) = (some (.failed e), last) from rfl,
+        asyncMem_frozen _ _ rfl]
+      rfl
+    | complete =>
+      rw [List.foldl_cons, show asyncMemStep (none, last) .complete = (some .completed, last) from rfl,
+        asyncMem_frozen _ _ rfl]
+      rfl
+
+theorem asyncMem_append (a b : List Call) : asyncMem (a ++ b) = b.foldl asyncMemStep (asyncMem a) := by
+  simp [asyncMem, List.foldl_append]
+
+/-- **ReactiveX AsyncSubject, every subscriber**: a subscriber that does not unsubscribe — whether it subscribed
+    before, between or after the items, or after the terminal — has received exactly `[last item (if any),
+    complete]` once the subject has completed, exactly `[error]` once it has failed, and nothing before that. -/
+theorem async_every_subscriber (cs : List Call) (o : Nat) (hsub : Call.subscribe o ∈ cs)
+    (hun : Call.unsubscribe o ∉ cs) : logOf (run .async cs) o = asyncResultOf (asyncMem cs) := by
+  obtain ⟨pre, post, rfl, hfresh⟩ := List.eq_append_cons_of_mem hsub
+  have hun' : Call.unsubscribe o ∉ post := fun h => hun (by simp [h])
+  rw [async_last_only pre post o hfresh, asyncMem_append]
+  cases hen : (asyncMem pre).1 with
+  | some en =>
+    have hfr := asyncMem_frozen (Call.subscribe o :: post) (asyncMem pre) (by simp [hen])
+    rw [hfr]
+    cases en <;> simp [asyncResultOf, hen]
+  | none =>
+    have hp : asyncMem pre = (none, (asyncMem pre).2) := by rw [← hen]
+    rw [asyncExpect_eq_result o post hun', List.foldl_cons]
+    conv => rhs; rw [hp]
+    rfl
+
+/-- **nothing before the terminal** — for every observer, whatever it does -/
+theorem async_silent_before_terminal (cs : List Call) (h : (asyncMem cs).1 = none) (o : Nat) :
+    logOf (run .async cs) o = [] := by
+  have key : ∀ (cs : List Call) (st : State), (st.ended = none → ∀ o, (st.obs o).log = []) →
+      (runFrom .async st cs).ended = none → ∀ o, ((runFrom .async st cs).obs o).log = [] := by
+    intro cs
+    induction cs with
+    | nil => intro st h1 h2; exact h1 h2
+    | cons c cs ih =>
+      intro st h1 h2
+      refine ih (step .async st c) ?_ h2
+      intro hen o
+      have hm := async_step_mem st c
+      simp only [Prod.ext_iff] at hm
+      have hen0 : st.ended = none := by
+        cases hx : st.ended with
+        | none => rfl
+        | some x => rw [hen, hx] at hm; simp [asyncMemStep] at hm
+      have hl := h1 hen0
+      cases c with
+      | subscribe o' =>
+        by_cases hne : o = o'
+        · subst hne
+          cases hs : (st.obs o).seen with
+          | true => rw [step_subscribe_seen .async st o hs]; exact hl o
+          | false => rw [async_subscribe_fresh st o hs, hen0, register_obs]; simp
+        · rw [step_subscribe_other .async st o' o hne]; exact hl o
+      | unsubscribe o' =>
+        have := unsubscribe_log .async st o' o
+        simp only [logOf] at this; rw [this]; exact hl o
+      | next v =>
+        have hst : step .async st (.next v) = { st with lastItem := some v } := by
+          show emitK .async st (.next v) = _; simp [emitK, hen0]
+        rw [hst]; exact hl o
+      | error e => rw [hen, hen0] at hm; simp [asyncMemStep] at hm
+      | complete => rw [hen, hen0] at hm; simp [asyncMemStep] at hm
+  have hm := async_run_mem cs
+  simp only [Prod.ext_iff] at hm
+  exact key cs (init .async) (fun _ _ => rfl) (by rw [show runFrom .async (init .async) cs = run .async cs from rfl, hm.1]; exact h) o
+
+/-- **`next` (and a second terminal) after the terminal changes nothing at all** -/
+theorem async_ignores_after_terminal (cs : List Call) (c : Call) (ev : Ev) (hc : c.toEv? = some ev)
+    (h : (asyncMem cs).1.isSome = true) : step .async (run .async cs) c = run .async cs := by
+  have hm := async_run_mem cs
+  simp only [Prod.ext_iff] at hm
+  rw [step_emitK .async _ c ev hc]
+  simp [emitK, hm.1, h]
+
+/-- **after a terminal no observer is held**, whatever is called afterwards (late subscribers are handed the
+    result and are not registered) -/
+theorem async_no_observer_once_ended (cs : List Call) (h : (asyncMem cs).1.isSome = true) :
+    registered (run .async cs) = [] := by
+  have he := endedOk_run .async cs
+  have hm := async_run_mem cs
+  simp only [Prod.ext_iff] at hm
+  simp only [EndedOk, Kind.isAsync, ↓reduceIte] at he
+  simp [registered, he (by rw [hm.1]; exact h)]
 
 /-- nothing is handed out before the subject terminates -/
 theorem asyncExpect_silent (o : Nat) (last : Option Data) (cs : List Call)
@@ -1721,28 +2167,30 @@ theorem asyncExpect_silent (o : Nat) (last : Option Data) (cs : List Call)
   induction cs generalizing last with
   | nil => rfl
   | cons c cs ih =>
-    have hc := h c (by simp)
-    have ih' := fun last => ih last (fun c hc => h c (by simp [hc]))
+    have hc := h c (List.mem_cons_self ..)
+    have ih' := fun l => ih l (fun c hc => h c (List.mem_cons_of_mem _ hc))
     cases c with
-    | complete => exact absurd rfl hc.1
-    | error e => exact absurd rfl (hc.2 e)
     | next v => simpa [asyncExpect] using ih' _
     | subscribe o' => simpa [asyncExpect] using ih' _
     | unsubscribe o' =>
       simp only [asyncExpect]; split
       · rfl
       · exact ih' _
+    | error e => exact absurd rfl (hc.2 e)
+    | complete => exact absurd rfl hc.1
 
 example : logOf (run .async [.next (.int 1), .subscribe 0, .next (.int 2), .next (.int 3), .complete]) 0
     = [.next (.int 3), .complete] := by decide
 example : logOf (run .async [.subscribe 0, .complete]) 0 = [.complete] := by decide
 example : logOf (run .async [.subscribe 0, .next (.int 2), .error 5]) 0 = [.error 5] := by decide
 example : logOf (run .async [.subscribe 0, .next (.int 2), .next (.int 3)]) 0 = [] := by decide
-/-- as written an item emitted BEFORE the subscriber arrived is not handed out on completion (the take_last
-    buffer is per subscription): ReactiveX's AsyncSubject would give late subscriber 0 the value 1. -/
-theorem async_buffer_is_per_subscriber :
-    logOf (run .async [.next (.int 1), .subscribe 0, .complete]) 0 = [.complete] := by decide
-
+/-- the item emitted BEFORE the subscriber arrived is handed out on completion (the former defect, F17) -/
+example : logOf (run .async [.next (.int 1), .subscribe 0, .complete]) 0 = [.next (.int 1), .complete] := by decide
+/-- before / between / after the items / after the terminal: all four get the same; `next 9` after it is ignored -/
+example :
+    let st := run .async [.subscribe 0, .next (.int 1), .subscribe 1, .next (.int 2), .subscribe 2, .complete,
+      .next (.int 9), .subscribe 3]
+    (List.range 4).map (logOf st) = List.replicate 4 [.next (.int 2), .complete] ∧ registered st = [] := by decide
 
 /-! ## non-vacuity of the hypotheses used above -/
 
@@ -1777,7 +2225,10 @@ example : Call.subscribe 2 ∉ [Call.subscribe 0, .next (.int 1), .subscribe 1, 
 #print axioms replay_handover
 #print axioms replay_records_after_terminal
 #print axioms async_last_only
-#print axioms async_buffer_is_per_subscriber
+#print axioms async_every_subscriber
+#print axioms async_silent_before_terminal
+#print axioms async_ignores_after_terminal
+#print axioms async_no_observer_once_ended
 #print axioms log_contract
 #print axioms good_run
 
